@@ -388,8 +388,12 @@ func (s *MemoryStore) Authenticate(_ context.Context, name string, secret string
 }
 
 func (s *MemoryStore) RevokeRefreshToken(ctx context.Context, requestID string) error {
+	// We first lock refreshTokenRequestIDsMutex and then refreshTokensMutex because this is the same order
+	// locking happens in CreateRefreshTokenSession and using the same order prevents deadlocks.
 	s.refreshTokenRequestIDsMutex.Lock()
 	defer s.refreshTokenRequestIDsMutex.Unlock()
+	s.refreshTokensMutex.Lock()
+	defer s.refreshTokensMutex.Unlock()
 
 	if signature, exists := s.RefreshTokenRequestIDs[requestID]; exists {
 		rel, ok := s.RefreshTokens[signature]
